@@ -12,10 +12,10 @@ def dq(op, dr, dc, d2r=None, d2c=None, plen=1, timeout=900):
         p.update(D2R=d2r, D2C=d2c)
         fb += d2r * d2c + 8 * max(d2r, d2c)
     if op == 6:
-        fb = 32 + 64 + 8
-    if op == 7:
-        fb = dr * dc + dr * plen * 8
-    return core.Query("C18", "dense.c", p, lib_exclude=ONLY, unwind=max(dr, dc, d2r or 0, d2c or 0, plen, 64, (1 << dc) if op == 7 else 0) + 6,
+        fb = 32 + 64 + 8 + 160
+    if op in (7, 8):
+        fb = dr * dc + dc * plen * 8 + (dr if op == 8 else 0)
+    return core.Query("C18", "dense.c", p, lib_exclude=ONLY, unwind=max(dr, dc, d2r or 0, d2c or 0, plen, 64, (1 << dc) if op in (7, 8) else 0) + 6,
                       free_bits=fb, timeout=timeout, mem_gb=10, flags=("--object-bits", "10"))
 
 
@@ -50,13 +50,17 @@ def build(tier):
             q = dq(7, p_, q_, plen=plen, timeout=1800 if tier == "quick" else 5400)
             q.mem_gb = 12 if tier == "quick" else 30
             qs.append(q)
+        if p_ * q_ <= (6 if tier == "quick" else 12):
+            q = dq(8, p_, q_, plen=1, timeout=1800 if tier == "quick" else 5400)      # NULL = zero constant terms
+            q.mem_gb = 12 if tier == "quick" else 30
+            qs.append(q)
     meta = dict(
         units=["binary_matrix/of_matrix_dense.c", "binary_matrix/of_hamming_weight.c", "ml_decoding/of_ml_tool.c"],
         functions_encoded=["of_mod2dense_{allocate,free,get,set,flip,clear,copy,copyrows,copycols,xor_rows,row_weight,col_weight,row_is_empty}",
                            "of_hweight32, of_hweight32_table, of_hweight8_table, of_hweight32_naive, of_popcount_3, of_hweight_array",
                            "of_linear_binary_code_solve_dense_system (triangularize, forward elimination, backward substitution)"],
-        bounds="dimensions %s x %s (word boundaries 31/32/33, 64/65), destinations of the same size, one larger in both directions, and one word wider; every matrix bit and every argument (positions, row/column index vectors) symbolic; popcounts over all 2^32 / 2^64 arguments; solver on p x q in %s with every matrix bit and right-hand sides built from a fully symbolic hidden solution (consistent systems, as the decoder builds them; len 1 and 9): OK iff full column rank (no non-zero kernel vector, all 2^q-1 checked symbolically), FAILURE otherwise, and on OK the returned symbols equal the hidden solution" % (rows, cols, solver),
-        outside_bounds="larger dimensions; sequences of more than the two or three operations each query chains; for copycols into a taller destination the extra rows are not asserted; the solver with NULL right-hand sides (as the ML decoder passes for all-zero constant terms) is reported separately under C03/C07 if it ever manifests",
+        bounds="dimensions %s x %s (word boundaries 31/32/33, 64/65), destinations of the same size, one larger in both directions, and one word wider; every matrix bit and every argument (positions, row/column index vectors) symbolic; popcounts over all 2^32 / 2^64 arguments; solver on p x q in %s with every matrix bit and right-hand sides built from a fully symbolic hidden solution (consistent systems, as the decoder builds them; len 1 and 9): OK iff full column rank (no non-zero kernel vector, all 2^q-1 checked symbolically), FAILURE otherwise, and on OK the returned symbols equal the hidden solution; a second family passes a solver-chosen subset of the all-zero right-hand sides as NULL, as the ML decoder does" % (rows, cols, solver),
+        outside_bounds="larger dimensions; sequences of more than the two or three operations each query chains; for copycols into a taller destination the extra rows are not asserted; ",
         stubs=[], assumptions=STD_ASSUMPTIONS[:2] + ["the bit model is filled through of_mod2dense_set and cross-checked through of_mod2dense_get for every bit before and after each operation"],
         exhaustive=False)
     return qs, meta
